@@ -289,8 +289,8 @@ def r05_5_converters(chk):
     val = ("param", "value")
 
     def int_cond(l, op=("in", "not in")):
-        return contains(l, lambda x: x[0] == "cmp" and x[1] in op and x[2] == A(SELF, "representation_code")
-                        and pp(x[3]).endswith("int_codes"))
+        return contains(l, lambda x: x[0] == "cmp" and x[1] in op and pp(x[3]).endswith("int_codes") and contains(
+            x[2], lambda y: y[0] == "attr" and y[1] == SELF and y[2] in ("representation_code", "_representation_code")))
     ints = [(c, t) for c, t in return_alternatives(cn) if t == ("call", ("global", "int"), (val,), ())]
     floats = [(c, t) for c, t in return_alternatives(cn) if t == ("call", ("global", "float"), (val,), ())]
     ok = bool(ints) and bool(floats) and all(any(int_cond(l, ("in",)) for l in c) for c, _ in ints) and \
